@@ -83,11 +83,17 @@ void ProxySocket::onUpstreamConnected()
     // Use the existing headers but insert proxy-related ones
     Socket::HeaderMap headers = mDownstreamSocket->headers();
     QByteArray peerIP = mDownstreamSocket->peerAddress().toString().toUtf8();
-    QByteArray origFwd = headers.value("X-Forwarded-For");
-    if (origFwd.isNull()) {
+    // (values() lists the most recently received header first)
+    QList<QByteArray> fwd = headers.values("X-Forwarded-For");
+    if (fwd.isEmpty()) {
         headers.insert("X-Forwarded-For", peerIP);
     } else {
-        headers.replace("X-Forwarded-For", origFwd + ", " + peerIP);
+        QByteArray combined;
+        for (int i = fwd.count() - 1; i >= 0; --i) {
+            combined += fwd.at(i) + ", ";
+        }
+        headers.remove("X-Forwarded-For");
+        headers.insert("X-Forwarded-For", combined + peerIP);
     }
     if (!headers.contains("X-Real-IP")) {
         headers.insert("X-Real-IP", peerIP);
